@@ -5,6 +5,7 @@ package main
 // containing a subdivided K5/K3,3 far from the first cycle found".
 
 import (
+	"time"
 	"fmt"
 	"sort"
 )
@@ -290,16 +291,81 @@ func c11Large(c *Ctx) {
 			jobs = append(jobs, job{lg, ps[pn], pn})
 		}
 	}
-	c.parFor(int64(len(jobs)), 1, func(lo, hi int64) {
-		for _, jb := range jobs[lo:hi] {
-			h := egRelabel(jb.lg.g, jb.perm)
-			t := jb.lg.planar
-			pc := planarCase{N: h.N, Edges: h.Edges, Truth: &t, Trace: []string{jb.lg.name, "relabel " + jb.pn}}
-			c.Check(func() *Failure { return evalPlanarStateEG(pc) })
-			c.Nontrivial(1)
-			c.States(1)
+	// pendant vertices on large blocks: a new vertex p joined to one vertex v of the graph, inserted at label L (the
+	// labels >= L move up), for L just before / at / after the labels of v's neighbours, 0 and n: planarity unchanged.
+	// (A cut vertex whose degree is tiny compared with its block, and an outside neighbour whose label falls between
+	// the labels of the block, is where size-dependent neighbour-list code is exercised.)
+	for _, lg := range gs {
+		n := lg.g.N
+		if n > 150 || (len(jobs) > 4000 && !c.Thorough()) {
+			continue
 		}
+		nb := lg.g.adjacency()
+		vs := []int{0, 1, n / 3, n / 2, n - 2, n - 1}
+		for _, v := range vs {
+			if v < 0 || v >= n || len(nb[v]) == 0 {
+				continue
+			}
+			Ls := map[int]bool{0: true, n: true, v: true, v + 1: true}
+			for _, u := range nb[v] {
+				Ls[u] = true
+				Ls[u+1] = true
+			}
+			var Lsorted []int
+			for L := range Ls {
+				if L >= 0 && L <= n {
+					Lsorted = append(Lsorted, L)
+				}
+			}
+			sort.Ints(Lsorted)
+			if len(Lsorted) > 8 && !c.Thorough() {
+				Lsorted = Lsorted[:8]
+			}
+			for _, L := range Lsorted {
+				h := &EG{N: n + 1}
+				up := func(x int) int {
+					if x >= L {
+						return x + 1
+					}
+					return x
+				}
+				for _, e := range lg.g.Edges {
+					egAdd(h, up(e[0]), up(e[1]))
+				}
+				egAdd(h, L, up(v))
+				h.norm()
+				id := make([]int, n+1)
+				for i := range id {
+					id[i] = i
+				}
+				jobs = append(jobs, job{lgraph{name: fmt.Sprintf("%s + pendant on %d inserted at label %d", lg.name, v, L), g: h, planar: lg.planar}, id, "identity"})
+			}
+		}
+	}
+	// evaluated in crash- and hang-isolated workers: on these sizes a defective IsPlanar can loop while allocating
+	// until memory is exhausted, which must be a verdict about that graph and not the end of the check
+	var cases []interface{}
+	var pcs []planarCase
+	for _, jb := range jobs {
+		h := egRelabel(jb.lg.g, jb.perm)
+		t := jb.lg.planar
+		pc := planarCase{N: h.N, Edges: h.Edges, Truth: &t, Trace: []string{jb.lg.name, "relabel " + jb.pn}}
+		cases = append(cases, pc)
+		pcs = append(pcs, pc)
+	}
+	c.RunIsolated("planar-state-eg", cases, 180*time.Second, func(i int, timedOut bool, stderr string) *Failure {
+		pc := pcs[i]
+		cl := "planar/kills-the-process"
+		if timedOut {
+			cl = "planar/does-not-terminate"
+		}
+		if len(stderr) > 300 {
+			stderr = stderr[:300]
+		}
+		return &Failure{Class: cl, What: fmt.Sprintf("n=%d %d edges, built by %v: IsPlanar gave no answer in an isolated worker (12 GB address space, 180 s): %s", pc.N, len(pc.Edges), pc.Trace, stderr), Kind: "planar-state-eg", Replay: pc}
 	})
+	c.Nontrivial(int64(len(jobs)))
+	c.States(int64(len(jobs)))
 	c.SetCount("partC_large_graphs", int64(len(gs)))
 	c.SetCount("partC_cases", int64(len(jobs)))
 }
@@ -309,7 +375,7 @@ func evalPlanarStateEG(pc planarCase) *Failure {
 	g := &EG{N: pc.N, Edges: pc.Edges}
 	truth := pc.Truth != nil && *pc.Truth
 	mk := func(cl, what string) *Failure {
-		return &Failure{Class: "planar/" + cl, What: fmt.Sprintf("n=%d %d edges, built by %v: %s", pc.N, len(pc.Edges), pc.Trace, what), Kind: "planar-state", Replay: pc}
+		return &Failure{Class: "planar/" + cl, What: fmt.Sprintf("n=%d %d edges, built by %v: %s", pc.N, len(pc.Edges), pc.Trace, what), Kind: "planar-state-eg", Replay: pc}
 	}
 	got, cl, what := libPlanar(libGraphFromEG(g, "dense"))
 	if cl != "" {
